@@ -40,6 +40,9 @@ CHECK_DEADLOCK FALSE
 RULE_RE = re.compile(r'^#"((?:[^"\\]|\\.)*)": "((?:[^"\\]|\\.)*)"$')
 
 
+ALIAS_RE = re.compile(r'^# "((?:[^"\\]|\\.)*)": "rule:(?:[^"\\]|\\.)*"$')
+
+
 def unescape(body):
     """the text a double-quoted scalar stands for (the escapes JSON and YAML share), None if malformed"""
     try:
@@ -103,7 +106,7 @@ def make_defaults(rng, n):
         elif kind == 'renamed':
             kw['deprecated_rule'] = policy.DeprecatedRule('old%d:%s' % (i, name[5:]), rng.choice(CHECKS), deprecated_reason=reason, deprecated_since=since)
         elif kind == 'changed':
-            kw['deprecated_rule'] = policy.DeprecatedRule(name, rng.choice(CHECKS), deprecated_reason=reason, deprecated_since=since)
+            kw['deprecated_rule'] = policy.DeprecatedRule(''.join(list(name)), rng.choice(CHECKS), deprecated_reason=reason, deprecated_since=since)    # (an equal string, not the same object)
         documented = rng.random() < 0.6 and desc and desc.strip()
         if documented:
             ops = [{'path': rng.choice(['/v1/x', '/v2/{id}/y#frag', '/a: b', '/"q"'.replace('"', '')]), 'method': rng.choice(['GET', 'POST', 'a: b'])}
@@ -129,6 +132,8 @@ def classify(text):
                 lines.append({'c': 'rule', 'name': ev.cps(unescape(m.group(1))), 'check': ev.cps(unescape(m.group(2)))})
             else:
                 lines.append({'c': 'rulelike', 'name': [], 'check': [], '_raw': ln})
+        elif ALIAS_RE.match(ln):
+            lines.append({'c': 'comment', 'name': [], 'check': [], '_alias': ALIAS_RE.match(ln).group(1)})
         elif ln.startswith('#'):
             lines.append({'c': 'comment', 'name': [], 'check': []})
         else:
@@ -144,7 +149,7 @@ def one_case(rng, sections, excl):
     from oslo_policy import generator, policy
     d = tempfile.mkdtemp(prefix='verif_sample_')
     c = {'crashed': 0, 'lines': [], 'defaults': [], 'yaml_whole_empty': 0, 'yaml_uncommented_ok': 0, 'uncommented': [], 'rules_load_ok': 0,
-         'json_ok': 0, 'json_pairs': []}
+         'json_ok': 0, 'json_pairs': [], 'aliases': []}
     try:
         for sec in sorted(sections):
             for m in sections[sec][1]:
@@ -152,6 +157,13 @@ def one_case(rng, sections, excl):
         pol = {sec: v[0] for sec, v in sections.items()}
         out = os.path.join(d, 'sample.yaml')
         outj = os.path.join(d, 'sample.json')
+        if rng.random() < 0.4:
+            # the output files exist already (an earlier sample, an edited policy file): they are replaced
+            with open(out, 'w') as f_:
+                f_.write('"stale:rule": "!"\n"svc:thing": "@"\n')
+            with open(outj, 'w') as f_:
+                f_.write('{"stale:rule": "!"}\n')
+            c['_preexisting_output'] = True
         with mock.patch('oslo_policy.generator.get_policies_dict', return_value=pol):
             if rng.random() < 0.5:
                 # through the console entry point (oslopolicy-sample-generator), options as command-line arguments
@@ -168,6 +180,7 @@ def one_case(rng, sections, excl):
         text = open(out, encoding='utf-8').read()
         c['_text'] = text
         c['lines'] = classify(text)
+        c['aliases'] = [ev.cps(l['_alias']) for l in c['lines'] if l.get('_alias') is not None]
         try:
             whole = yaml.safe_load(text)
             c['yaml_whole_empty'] = 1 if not whole else 0
@@ -236,7 +249,7 @@ def run(ctx):
                     elif kind == 'renamed':
                         kw['deprecated_rule'] = _policy.DeprecatedRule('old:thing', 'role:old', deprecated_reason=reason, deprecated_since='N')
                     elif kind == 'changed':
-                        kw['deprecated_rule'] = _policy.DeprecatedRule('svc:thing', 'role:old', deprecated_reason=reason, deprecated_since='N')
+                        kw['deprecated_rule'] = _policy.DeprecatedRule(''.join(['svc', ':', 'thing']), 'role:old', deprecated_reason=reason, deprecated_since='N')
                     elif reason != '':
                         continue
                     d0 = _policy.RuleDefault('svc:thing', 'role:admin', description=desc, **kw)
